@@ -24,7 +24,9 @@ func (rr *SIG) Sign(k crypto.Signer, m *Msg) ([]byte, error) {
 	rr.Hdr = RR_Header{Name: ".", Rrtype: TypeSIG, Class: ClassANY, Ttl: 0}
 	rr.OrigTtl, rr.TypeCovered, rr.Labels = 0, 0, 0
 
-	buf := make([]byte, m.Len()+Len(rr))
+	// PackBuffer packs into buf only if it holds the uncompressed message plus
+	// one octet, even when the message is compressed afterwards.
+	buf := make([]byte, msgLenWithCompressionMap(m, nil)+1+Len(rr))
 	mbuf, err := m.PackBuffer(buf)
 	if err != nil {
 		return nil, err
